@@ -298,7 +298,7 @@ class KernelNormalizer(KernelCenterer):
         self : object
             Fitted transformer.
         """
-        K = self._validate_data(K, copy=True, dtype=FLOAT_DTYPES, reset=False)
+        K = self._validate_data(K, copy=True, dtype=FLOAT_DTYPES)
 
         if sample_weight is not None:
             self.sample_weight_ = _check_sample_weight(sample_weight, K, dtype=K.dtype)
